@@ -48,6 +48,9 @@ type HarnessResult struct {
 	FbQueries, FbDecided int
 	FbTime      time.Duration
 	Wall        time.Duration
+	Witnesses   [][]VecEntry // sampled concrete inputs of completed paths, replayed natively afterwards
+	WitOK, WitSkip int
+	WitFail     []string
 }
 
 type Config struct {
@@ -63,6 +66,7 @@ type Config struct {
 	LogDir     string
 	Verbose    bool
 	Budget     time.Duration
+	Witnesses  int // completed paths per harness whose model input is re-run natively
 }
 
 var initWhitelist = map[string]bool{
@@ -160,6 +164,10 @@ func (e *Exec) runPath(h *ssa.Function, prefix []Decision) (end string, msg stri
 	if e.pcDirty && e.sol.Check() == "unsat" {
 		return "infeasible", ""
 	}
+	e.witness = nil
+	if len(e.viols) == 0 && e.wantWitness != nil && e.wantWitness() {
+		e.captureWitness()
+	}
 	return "ok", ""
 }
 
@@ -228,6 +236,7 @@ func exploreHarness(p *Program, h *ssa.Function, cfg Config) *HarnessResult {
 	active := 0
 	started := 0
 	violKeys := map[string]int{}
+	witSeq, witPending := 0, 0
 	deadline := time.Time{}
 	if cfg.Budget > 0 {
 		deadline = t0.Add(cfg.Budget)
@@ -256,6 +265,21 @@ func exploreHarness(p *Program, h *ssa.Function, cfg Config) *HarnessResult {
 		e := &Exec{P: p, sol: sol, solBV: sol, solINT: solI, tier: cfg.Tier, maxSteps: cfg.MaxSteps,
 			reached: map[string]bool{}, asserts: map[string]int{}, bounds: map[string]int{},
 			extraSolvers: map[string]*Solver{}, fallbacks: cfg.Fallbacks, fallbackMs: cfg.FallbackMs, funcsSeen: map[string]bool{}, intrUsed: map[string]bool{}, stubsUsed: map[string]bool{}, hname: h.Name()}
+		e.wantWitness = func() bool {
+			mu.Lock()
+			defer mu.Unlock()
+			witSeq++
+			if len(res.Witnesses)+witPending >= cfg.Witnesses {
+				return false
+			}
+			// spread over the exploration: paths 1,2,4,8,... and every 61st
+			if witSeq&(witSeq-1) == 0 || witSeq%61 == 0 {
+				witPending++
+				e.witReq = true
+				return true
+			}
+			return false
+		}
 		npaths := 0
 		for {
 			mu.Lock()
@@ -299,6 +323,14 @@ func exploreHarness(p *Program, h *ssa.Function, cfg Config) *HarnessResult {
 				res.Mode = e.mode.String()
 			} else if res.Mode != e.mode.String() {
 				res.Mode = "mixed"
+			}
+			if e.witReq {
+				// a requested witness that could not be produced frees its slot
+				e.witReq = false
+				witPending--
+				if e.witness != nil && end == "ok" {
+					res.Witnesses = append(res.Witnesses, e.witness)
+				}
 			}
 			switch end {
 			case "ok":
